@@ -149,3 +149,145 @@ Proof.
     destruct (sz =? 0); [rewrite app_nil_r|]; reflexivity.
 Qed.
 End R.
+
+(* ---- histories *)
+Section H.
+Variables (maxSize : Z) (maxBackups : nat).
+Notation stream := (stream maxBackups).
+Notation oldest := (oldest maxBackups).
+Notation must_rotate := (must_rotate maxSize).
+
+Definition next (r : rot) (o : op) : rot :=
+  match o with
+  | OClose => close r
+  | OSync => r
+  | OWrite id sz => append (if must_rotate r sz then reopen (rotate maxBackups (reopen r)) else reopen r) id sz
+  end.
+Lemma step_total r o : step maxSize maxBackups r o = Some (next r o).
+Proof. destruct o as [id sz| |]; try reflexivity. unfold step. rewrite write_result by (unfold FUEL; lia). reflexivity. Qed.
+
+Fixpoint states (r : rot) (ops : list op) : list rot := match ops with [] => [] | o :: rest => next r o :: states (next r o) rest end.
+Definition final (r : rot) (ops : list op) : rot := fold_left next ops r.
+Lemma run_states : forall ops r, run maxSize maxBackups (Some r) ops = map (fun r' => Some (files r')) (states r ops).
+Proof. induction ops as [|o ops IH]; intro r; [reflexivity|]. cbn [run states map]. rewrite step_total. f_equal. apply IH. Qed.
+Lemma last_cons {A} : forall (l : list A) x d, last (x :: l) d = last l x.
+Proof. induction l as [|y l IH]; intros x d; [reflexivity|]. change (last (x :: y :: l) d) with (last (y :: l) d). rewrite !IH. reflexivity. Qed.
+Lemma states_final : forall ops r, last (states r ops) r = final r ops.
+Proof.
+  induction ops as [|o ops IH]; intro r; [reflexivity|]. cbn [states final fold_left].
+  change (fold_left next ops (next r o)) with (final (next r o) ops). rewrite <- IH. apply last_cons.
+Qed.
+
+Definition written (ops : list op) : content := flat_map (fun o => match o with OWrite id sz => body id sz | _ => [] end) ops.
+
+Lemma next_stream r o : exists gone, stream r ++ written [o] = gone ++ stream (next r o) /\ (gone = [] \/ gone = oldest r).
+Proof.
+  destruct o as [id sz| |]; cbn [written flat_map]; rewrite ?app_nil_r.
+  - destruct (write_stream maxSize maxBackups r id sz 2 (le_n _)) as (r' & E & S & _).
+    rewrite write_result in E by lia. injection E as <-. unfold next. destruct (must_rotate r sz).
+    + destruct S as [S1 S2]. exists (oldest r). split; [|right; reflexivity]. rewrite S2, app_assoc, <- S1. reflexivity.
+    + exists []. split; [|left; reflexivity]. rewrite S. reflexivity.
+  - exists []. split; [reflexivity|left; reflexivity].
+  - exists []. split; [reflexivity|left; reflexivity].
+Qed.
+
+(* the retained stream is always a suffix of what was there plus what was written *)
+Theorem stream_is_suffix : forall ops r, exists dropped, stream r ++ written ops = dropped ++ stream (final r ops).
+Proof.
+  induction ops as [|o ops IH]; intro r.
+  - exists []. cbn. rewrite app_nil_r. reflexivity.
+  - destruct (next_stream r o) as (gone & E & _). destruct (IH (next r o)) as (d & E').
+    exists (gone ++ d).
+    assert (W : written (o :: ops) = written [o] ++ written ops) by (unfold written; cbn [flat_map]; rewrite app_nil_r; reflexivity).
+    rewrite W. change (final r (o :: ops)) with (final (next r o) ops).
+    rewrite app_assoc, E, <- !app_assoc, E'. reflexivity.
+Qed.
+
+(* nothing is lost while the oldest slot is empty *)
+Theorem nothing_lost_while_slot_free r o : oldest r = [] -> stream (next r o) = stream r ++ written [o].
+Proof. intro H. destruct (next_stream r o) as (gone & E & [->| ->]); [|rewrite H in E]; cbn [app] in E; symmetry; exact E. Qed.
+
+(* a write lands whole at the end of the current file; close and sync change no file *)
+Theorem write_lands_whole r id sz : exists c, flook (files (next r (OWrite id sz))) 0%nat = Some (c ++ body id sz).
+Proof. destruct (write_stream maxSize maxBackups r id sz 2 (le_n _)) as (r' & E & _ & C). rewrite write_result in E by lia. injection E as <-. exact C. Qed.
+Theorem close_sync_keep_files r : files (next r OClose) = files r /\ files (next r OSync) = files r.
+Proof. split; reflexivity. Qed.
+
+(* ---- invariants: sizes, positions *)
+Definition ok_file (c : content) : Prop := (fsize c <= maxSize \/ (length c <= 1)%nat) /\ Forall (fun p => 0 < snd p) c.
+Definition Inv (r : rot) : Prop :=
+  (forall k c, flook (files r) k = Some c -> (k <= maxBackups)%nat /\ ok_file c) /\
+  (is_open r = true -> exists c, flook (files r) 0%nat = Some c /\ size r = fsize c).
+
+Lemma fsize_app c d : fsize (c ++ d) = fsize c + fsize d.
+Proof. unfold fsize. induction c as [|p c IH]; cbn [app fold_right]; [reflexivity|]. rewrite IH. lia. Qed.
+Lemma fsize_pos c : Forall (fun p => 0 < snd p) c -> 0 <= fsize c /\ (fsize c <= 0 -> c = []).
+Proof.
+  unfold fsize. induction 1 as [|p c Hp _ [IH1 IH2]]; cbn [fold_right]; [split; [lia|reflexivity]|]. split; [lia|]. intro. lia.
+Qed.
+
+Lemma Inv_reopen r : Inv r -> Inv (reopen r) /\ is_open (reopen r) = true.
+Proof.
+  intros [I1 I2]. unfold reopen. destruct (is_open r) eqn:O; [split; [split; [exact I1|intros _; apply I2; reflexivity]|exact O]|].
+  destruct (flook (files r) 0%nat) as [c|] eqn:E.
+  - split; [|reflexivity]. split; cbn [files is_open size]; [exact I1|]. intros _. exists c. split; [exact E|reflexivity].
+  - split; [|reflexivity]. split; cbn [files is_open size].
+    + intros k c. rewrite flook_fput. destruct (Nat.eqb_spec k 0) as [->|H]; [|apply I1].
+      intros [= <-]. split; [lia|]. split; [right; cbn; lia|constructor].
+    + intros _. exists []. rewrite flook_fput. split; reflexivity.
+Qed.
+
+Lemma Inv_rotate r : Inv r -> Inv (rotate maxBackups r).
+Proof.
+  intros [I1 _]. split; [|cbn; discriminate]. unfold rotate. cbn [files]. destruct maxBackups as [|b] eqn:EB.
+  - intros k c. rewrite flook_fdel. destruct (k =? 0)%nat; [discriminate|]. apply I1.
+  - assert (H : flook (fdel (files r) (S b)) (S b) = None) by (rewrite flook_fdel, Nat.eqb_refl; reflexivity).
+    destruct (rename_chain_spec (S b) _ H) as (A & Bq & C). intros k c Hk.
+    destruct (Nat.eq_dec k 0) as [->|K0]; [rewrite C in Hk by lia; discriminate|].
+    destruct (le_lt_dec k (S b)) as [Hle|Hgt].
+    + rewrite A in Hk by lia. rewrite flook_fdel in Hk. destruct ((k - 1 =? S b)%nat); [discriminate|].
+      split; [exact Hle|]. apply (I1 _ _ Hk).
+    + rewrite Bq in Hk by lia. rewrite flook_fdel in Hk. destruct ((k =? S b)%nat); [discriminate|].
+      destruct (I1 _ _ Hk) as [Hb _]. lia.
+Qed.
+
+Lemma Inv_append r id sz : Inv r -> is_open r = true -> 0 <= sz -> ((0 <? size r) && (maxSize <? size r + sz) = false) -> Inv (append r id sz).
+Proof.
+  intros [I1 I2] O Hsz Hno. destruct (I2 O) as (c0 & E0 & S0). destruct (I1 _ _ E0) as [_ [Hok Hpos]].
+  split; unfold append; cbn [files is_open size].
+  - intros k c. rewrite flook_fput. destruct (Nat.eqb_spec k 0) as [->|H]; [|apply I1].
+    rewrite E0. intros [= <-]. split; [lia|]. destruct (Z.eqb_spec sz 0) as [->|Hnz]; [split; assumption|].
+    split; [|apply Forall_app; split; [exact Hpos|constructor; [cbn; lia|constructor]]].
+    apply andb_false_iff in Hno. destruct (fsize_pos c0 Hpos) as [P1 P2]. destruct Hno as [Hno|Hno].
+    + apply Z.ltb_ge in Hno. rewrite S0 in Hno. rewrite (P2 Hno). right. cbn. lia.
+    + apply Z.ltb_ge in Hno. left. rewrite fsize_app. cbn. lia.
+  - intros _. rewrite flook_fput. cbn [Nat.eqb]. rewrite E0. eexists. split; [reflexivity|].
+    destruct (Z.eqb_spec sz 0) as [->|Hnz]; [lia|]. rewrite fsize_app. cbn. lia.
+Qed.
+
+Lemma size_after_rotate r : size (reopen (rotate maxBackups (reopen r))) = 0.
+Proof. unfold reopen at 1. cbn [is_open rotate]. rewrite rotate_no_current. reflexivity. Qed.
+
+Lemma Inv_next r o : Inv r -> (forall id sz, o = OWrite id sz -> 0 <= sz) -> Inv (next r o).
+Proof.
+  intros I Hsz. destruct o as [id sz| |]; cbn [next].
+  - specialize (Hsz id sz eq_refl). destruct (Inv_reopen r I) as [I1 O1]. unfold Proofs.must_rotate.
+    destruct ((0 <? size (reopen r)) && (maxSize <? size (reopen r) + sz)) eqn:E.
+    + destruct (Inv_reopen _ (Inv_rotate _ I1)) as [I2 O2]. apply Inv_append; try assumption. rewrite size_after_rotate. reflexivity.
+    + apply Inv_append; assumption.
+  - destruct I as [I1 I2]. split; [exact I1|]. cbn. discriminate.
+  - exact I.
+Qed.
+
+Definition sizes_ok (ops : list op) : Prop := Forall (fun o => match o with OWrite _ sz => 0 <= sz | _ => True end) ops.
+Theorem Inv_final : forall ops r, Inv r -> sizes_ok ops -> Inv (final r ops).
+Proof.
+  induction ops as [|o ops IH]; intros r I H; [exact I|]. inversion H as [|? ? Ho Hr]; subst.
+  apply IH; [|exact Hr]. apply Inv_next; [exact I|]. intros id sz ->. exact Ho.
+Qed.
+
+(* start of a history: closed, over pre-existing files that are themselves within the limits *)
+Definition pre_ok (pre : fs) : Prop := forall k c, flook pre k = Some c -> (k <= maxBackups)%nat /\ ok_file c.
+Lemma Inv_start pre : pre_ok pre -> Inv (start pre).
+Proof. intro H. split; [exact H|]. cbn. discriminate. Qed.
+End H.
